@@ -116,6 +116,42 @@ func inLoop(b *ssa.BasicBlock) bool {
 
 func Degree(w *load.World, ls *lockset.Result, c *core.Collector) {
 	props := []string{"C10"}
+	// a node that loses neighbours to a deletion gets its edge list rebuilt: every successful way through
+	// pruneDeleteNeighbour replaces the old list (ClearNeighbours, directly or by robustPrune). A way
+	// out that keeps the old list keeps the edges to the points that are being deleted.
+	if pd := findFn(w, "(*shard/index/vamana.IndexVamana).pruneDeleteNeighbour"); pd != nil {
+		var banned []ssax.Edge
+		for _, b := range pd.Blocks {
+			for _, in := range b.Instrs {
+				if callsNamed(in, "ClearNeighbours", 0) {
+					for i := range b.Succs {
+						banned = append(banned, ssax.Edge{From: b, Succ: i})
+					}
+				}
+			}
+		}
+		bad := ""
+		for _, ex := range successExits(pd) {
+			if reachableWithoutEdges(pd, banned, ex.In.Block()) {
+				clearedHere := false
+				for _, in := range ex.In.Block().Instrs {
+					if callsNamed(in, "ClearNeighbours", 0) {
+						clearedHere = true
+					}
+				}
+				if !clearedHere {
+					bad = w.At(ex.In)
+				}
+			}
+		}
+		if bad != "" || len(banned) == 0 {
+			c.Add("DEGREE", "prune-delete-rewrites", core.Violation, w.Position(pd.Pos()), "pruneDeleteNeighbour can return successfully without having replaced the node's edge list: the edges to the deleted points stay and are flushed, the next search that follows one of them fails on a missing node", props...)
+		} else {
+			c.Add("DEGREE", "prune-delete-rewrites", core.OK, w.Position(pd.Pos()), "", props...)
+		}
+	} else {
+		c.Add("DEGREE", "anchor:pruneDeleteNeighbour", core.Undecided, "", "pruneDeleteNeighbour not found", props...)
+	}
 	n := 0
 	for _, f := range w.Fns {
 		if load.PkgPath(f) != load.Mod+"/shard/index/vamana" {
